@@ -9,7 +9,7 @@ Abstract values (small JSON):
   layout ::= 'C' | 'F' | 'S' (every other item of the last axis of a larger array) | 'R' (reversed view)
   key    ::= ['i', z] | ['s', str]
   cell   ::= ['none'] | ['int', z] | ['float', tok] | ['str', s]
-  edge   ::= {'what': 'json_missing' | 'json_empty' | 'tsv_missing' | 'simple_missing' | 'python_missing'}
+  edge   ::= {'what': 'tsv_nested', 'v': value} | {'what': 'json_missing' | 'json_empty' | 'tsv_missing' | 'simple_missing' | 'python_missing'}
            | {'what': 'tsv_no_rows', 'delim', 'first', 'excl', 'n'} | {'what': 'bigint', 'w': 0..4, 'neg': b, 'extra': k}
              (inputs outside the statement: compared with the model only, code 1)
 """
@@ -342,7 +342,12 @@ NUM_LIMIT = ['1' * LIMIT, '1' * (LIMIT + 1), '0' * (LIMIT + 1), '-' + '9' * LIMI
 EDGES = ([{'what': w} for w in ('json_missing', 'json_empty', 'tsv_missing', 'simple_missing', 'python_missing')] +
          [{'what': 'tsv_no_rows', 'delim': dl, 'first': f, 'excl': ex, 'n': n}
           for dl, f, ex, n in (('tab', None, [], 4), ('comma', None, [], 4), ('tab', 'a', ['b'], 2), ('comma', 'zz', [], 6))] +
-         [{'what': 'bigint', 'w': w, 'neg': bool(w % 2), 'extra': 7 * w} for w in range(5)])
+         [{'what': 'bigint', 'w': w, 'neg': bool(w % 2), 'extra': 7 * w} for w in range(5)] +
+         [{'what': 'tsv_nested', 'v': v} for v in (
+             ['list', [['float', ftok(0.123456)], ['int', 1], ['str', 'x'], ['none'], ['float', ftok(-2.5)]]],
+             ['dict', [['x', ['float', ftok(0.5)]], ['y', ['list', [['float', ftok(2.0)], ['bool', True]]]]]],
+             ['list', [['list', [['float', ftok(0.125)]]], ['dict', [['k', ['float', 'nan']]]]]],
+             ['list', []], ['dict', []])])
 
 
 def generate(tier, rng):
@@ -719,6 +724,11 @@ def _run_edge(np, i, d):
         m.write_tsv(p, [], first_field=i['first'], exclude_fields=tuple(i['excl']), n_significant_figures=i['n'])
         out = m.read_tsv(p)
         return ('rows', [[[key, _cell_canon(np, v)] for key, v in r.items()] for r in out])
+    if w == 'tsv_nested':
+        p = os.path.join(d, 'nested.tsv')
+        m.write_tsv(p, [{'a': _mk(np, i['v']), 'b': 1}])
+        out = m.read_tsv(p)
+        return ('rows', [[[key, _cell_canon(np, v)] for key, v in r.items()] for r in out])
     if w == 'bigint':
         z = (10 ** LIMIT + i['extra']) * (-1 if i['neg'] else 1)
         if i['w'] == 0:
@@ -844,6 +854,8 @@ def encode(case, obs):
         w = i['what']
         if w == 'tsv_no_rows':
             e = q.app('ETsvNoRows', _delim(i['delim']), q.opt(i['first'], cs), q.lst(i['excl'], cs), q.z(i['n']))
+        elif w == 'tsv_nested':
+            e = q.app('ETsvNested', _val(i['v']))
         elif w == 'bigint':
             # lim_bound = 10 ^ 4300 (C18/Lim.v), evaluated once
             zt = '(lim_bound + %s)' % q.z(i['extra'])
